@@ -346,6 +346,9 @@ func (h *histRun) round(plan map[glow.PublicKey]beh, label string) {
 			for _, s := range accepted.mig.NewServers {
 				want[s.PublicKey] = true
 			}
+			if len(accepted.mig.NewServers) == 0 {
+				h.count("round.migrated-to-empty-list")
+			}
 			for k := range amap {
 				if !want[k] {
 					h.fail("after a migration the list contains a server that is not in the order", "migration-list", replay)
@@ -524,6 +527,56 @@ func (h *histRun) mkBeh(kind string, f *fakeSrv, known map[glow.PublicKey]client
 		nf, _ := h.addFake(true)
 		m := mkMig(h.tab, newKey(), h.cd.dev.pub, ng.pub, uint32(h.rng.Range(1, 1<<20)), []server.AuthorizedServer{h.signedEntry(ng, nf, false)})
 		return send(signedWire(h.tab, spec.withMigration(m).content(), f.key))
+	case "migrate", "migrate0", "samegca", "badinner", "foreign-order":
+		ng := newKey()
+		if kind == "samegca" {
+			ng = h.gca // an order that names the current GCA: nothing to migrate, the list is merged
+		}
+		k := h.rng.Range(1, 4)
+		if kind == "migrate0" {
+			k = 0
+		}
+		var ns []server.AuthorizedServer
+		for j := 0; j < k; j++ {
+			nf, _ := h.addFake(j == 0 || h.rng.Chance(50))
+			signer := ng
+			if kind == "badinner" && j == k-1 {
+				signer = h.gca // signed by the OLD GCA: not acceptable for the new list
+			}
+			ns = append(ns, h.signedEntry(signer, nf, j > 0 && h.rng.Chance(20)))
+		}
+		if kind == "migrate" && h.rng.Chance(30) && k > 0 { // duplicate key inside the order: first entry wins unless the later one is a ban
+			ns = append(ns, mkAS(h.tab, ng, ns[0].PublicKey, h.rng.Bool(), "127.0.0.3", 1, 2, 3))
+		}
+		eq := h.cd.dev.pub
+		if kind == "foreign-order" {
+			eq = newKey().pub // a genuine order of the current GCA, but for another device
+		}
+		m := mkMig(h.tab, h.gca, eq, ng.pub, uint32(h.rng.Range(1, 1<<30)), ns)
+		b := send(signedWire(h.tab, spec.withMigration(m).content(), f.key))
+		switch kind {
+		case "migrate", "migrate0":
+			b.valid, b.mig = true, &m
+			h.newGCAs[ng.pub] = ng
+		case "samegca":
+			b.valid, b.servers = true, ns
+		}
+		return b
+	case "ban-then-move": // bans every other server; for servers already banned, a ban record with another address
+		for _, k := range sortedKeys(known) {
+			fk, ok := h.fakes[k]
+			if !ok || k == f.key.pub {
+				continue
+			}
+			if known[k].Banned {
+				spec.servers = append(spec.servers, mkAS(h.tab, h.gca, k, true, "127.0.0.9", 11, fk.port, 12))
+			} else {
+				spec.servers = append(spec.servers, h.signedEntry(h.gca, fk, true))
+			}
+		}
+		b := send(signedWire(h.tab, spec.content(), f.key))
+		b.valid, b.servers = true, spec.servers
+		return b
 	case "success", "delayed", "early":
 		var extra []server.AuthorizedServer
 		if h.rng.Chance(40) {
@@ -848,6 +901,7 @@ func rogueSuite(seed uint64, tier, outDir string) (*core.Result, error) {
 		}
 		h.mergeInto(res)
 		res.Case(map[string]interface{}{"kind": "client-history", "name": h.tag, "steps": h.desc}, h.gallina(), nontrivial)
+		res.Evaluations += len(h.desc) - 1 // every load / round of the history is compared with the model
 		hitems = append(hitems, h.gallina())
 		h.cleanup()
 	}
